@@ -142,6 +142,7 @@ func (g *fleetGen) mkNode(role, kind string, mapFrom *engine.Node) *fgNode {
 	if err != nil {
 		panic(err)
 	}
+	spec.Ctor = g.r.Pct(15)
 	n := &fgNode{id: spec.ID, spec: spec, m: m}
 	g.aim(n)
 	g.nodes = append(g.nodes, n)
